@@ -13,7 +13,8 @@ subprocess.run(['git', '-C', '/repo', 'worktree', 'add', '-q', '--detach', wt, '
 env = dict(os.environ, CARGO_NET_OFFLINE='true', CARGO_TARGET_DIR=wt + '/target')
 demo = os.path.join(wt, 'demo_runner')
 os.makedirs(demo + '/src')
-open(demo + '/Cargo.toml', 'w').write('[package]\nname = "demo"\nversion = "0.0.0"\nedition = "2021"\n[dependencies]\nnodejs-semver = { path = ".." }\n[workspace]\n')
+serde = os.environ.get('SERDE') == '1'
+open(demo + '/Cargo.toml', 'w').write('[package]\nname = "demo"\nversion = "0.0.0"\nedition = "2021"\n[dependencies]\nnodejs-semver = { path = ".."%s }\n%s[workspace]\n' % (', features = ["serde"]' if serde else '', 'serde_json = "1.0"\n' if serde else ''))
 shutil.copy(os.path.join(src, 'demo.rs'), demo + '/src/main.rs')
 shutil.copy('/repo/Cargo.lock', demo + '/Cargo.lock')
 def run_demo():
@@ -24,7 +25,7 @@ def run_demo():
 try:
     c = run_demo()
     a = subprocess.run(['git', '-C', wt, 'apply', os.path.abspath(os.path.join(src, 'patch.diff'))], capture_output=True, text=True)
-    t = subprocess.run(['cargo', 'test', '--offline'], cwd=wt, env=env, capture_output=True, text=True)
+    t = subprocess.run(['cargo', 'test', '--offline'] + (['--features', 'serde'] if serde else []), cwd=wt, env=env, capture_output=True, text=True)
     tl = [l for l in t.stdout.split('\n') if l.startswith('test result')]
     m = run_demo()
     ok = c.returncode == 0 and a.returncode == 0 and t.returncode == 0 and m.returncode != 0
